@@ -776,6 +776,14 @@ pub fn strategy_netto(g: &GenCfg) -> BoxedStrategy<Case> {
             // an untimed read needs its byte unless the reader gets cancelled
             let n = reads.len();
             let split = if n >= 2 { (succ as usize).min(n - 1) } else { 0 };
+            // an aimed cancel mostly hits a read that only the cancel can end (no time-out, no
+            // data): a cancel that gets lost in the registration window is then a hang
+            if cancel == 1 && aim > 0 && cdelay % 2 == 0 {
+                let first_to = if split > 0 { split } else { n };
+                let k = (aim as usize - 1).min(first_to - 1);
+                reads[k].1 = 0;
+                sends[k].1 = NEVER;
+            }
             for (i, (r, s)) in reads.iter().zip(sends.iter_mut()).enumerate() {
                 // (the successor is never cancelled and continues wherever the first reader stopped)
                 let _ = i;
